@@ -92,7 +92,7 @@ def run_pretty_job(prog, job):
         if o.kind != 'return' or (isinstance(o.value, En) and o.value.d.conc() and o.value.d.v != 0):
             res['obligations'] += 1
             if 'C14.' in prefixes:
-                r = sv.check(*pc)
+                r = eng.check(list(pc))
                 if r == z3.sat: res['violations'].append(mkviol(sv.model(), ['C14.no_panic_no_error'], got=key))
             continue
         text = ''.join(getattr(o.state, 'out', ()))
@@ -102,19 +102,22 @@ def run_pretty_job(prog, job):
         badmode = z3.Or(*[z3.BoolVal(k != want_kind) if True else F_ for (k, a) in modes] + [z3.BoolVal(False)])
         altbad = [a for (k, a) in modes]
         mode_ok = z3.And(z3.Not(badmode), *[(alt == z3.BoolVal(a)) for a in altbad])
-        r = sv.check(*(pc + [z3.Not(mode_ok)]))
+        r = eng.check(pc + [z3.Not(mode_ok)])
         if r == z3.sat: res['violations'].append(mkviol(sv.model(), ['C14.payload_mode_passed_through'], got=str(modes)))
         elif r == z3.unsat: res['discharged'] += 1
         for (ck, cf) in (('x_has_siblings', z3.Or(sel(pre.some['next'], x), sel(pre.some['prev'], x))), ('x_not_root', sel(pre.some['parent'], x))):
-            if not cov[ck] and sv.check(*(pc + [cf])) == z3.sat: cov[ck] = True
+            if not cov[ck] and eng.check(pc + [cf]) == z3.sat: cov[ck] = True
         # all projections of the path condition on the printed subtree
         blocks = []
         nproj = 0
         while True:
-            t1 = time.time(); r = sv.check(*(pc + blocks)); res['solver_time'] += time.time() - t1
+            t1 = time.time(); r = eng.check(pc + blocks); res['solver_time'] += time.time() - t1
             res['assert_queries'] += 1
             if r == z3.unknown: res['unknown'] = 'projection query unknown'; break
-            if r == z3.unsat: break
+            if r == z3.unsat:
+                if res.get('export_smt2', 0) > len(res['smt2']) and blocks:
+                    res['smt2'].append(harness.export_smt2(sv, pc + blocks, 'unsat'))
+                break
             m = sv.model()
             nproj += 1
             if nproj > MAXPROJ: res['unknown'] = 'more than %d projections on one path' % MAXPROJ; break
